@@ -22,13 +22,7 @@ def oracle (req out : Sexp) : String :=
         if obs.length != k.evs.length then "viol trace-length"
         else match judge27 k.cfg (G27.init k.t0) k.evs obs with
           | [] => "ok"
-          | v :: vs =>
-            -- several violations in one history: report one of a class that is not a
-            -- listed finding first, so that a listed one never hides a new one
-            let listed : List Viol27 := [.hardRestoredInCooldownMasterDown]
-            match (v :: vs).find? (fun x => !listed.contains x) with
-            | some x => "viol " ++ x.name
-            | none => "viol " ++ v.name
+          | v :: _ => "viol " ++ v.name   -- no class of C27 is a listed finding
 
 def handle (args : List Sexp) : String :=
   match args with
